@@ -205,3 +205,29 @@ def reader_progress_obligation(prop="C20", replay=None):
         if replay:
             r.replay = replay()
     return [r]
+
+
+def diagnostics_allocate_nothing(prop="C20", replay=None):
+    """a file that is rejected leaves nothing behind in the project-wide name selector: output names are handed out after a file has parsed completely
+    (Project._fortran_file).  FortranContainer.print_error, which runs in the middle of a parse that may still fail, therefore describes the entity by its attributes - it formats
+    neither the entity itself (`str(self)` computes the URL, which asks the selector for a name) nor `ident` / `anchor` / `get_url()` / `full_url`."""
+    import ast
+    from harness import loader
+    from harness.core import OR, PROVED, REFUTED
+    fn = loader.find_def("ford.sourceform", "FortranContainer.print_error")
+    bad = []
+    for n in ast.walk(fn):
+        if isinstance(n, ast.FormattedValue) and isinstance(n.value, ast.Name) and n.value.id == "self":
+            bad.append((n.lineno, "{self}"))
+        if isinstance(n, ast.Call) and isinstance(n.func, ast.Name) and n.func.id in ("str", "repr") and n.args and isinstance(n.args[0], ast.Name) and n.args[0].id == "self":
+            bad.append((n.lineno, ast.unparse(n)))
+        if isinstance(n, ast.Attribute) and n.attr in ("ident", "anchor", "full_url", "get_url") and isinstance(n.value, ast.Name) and n.value.id == "self":
+            bad.append((n.lineno, ast.unparse(n)))
+    r = OR(id=f"{prop}.S.FortranContainer.print_error.describes_the_entity_without_allocating_a_name", status=REFUTED if bad else PROVED, kind="S", role="frame", backend="ast",
+           target="ford.sourceform.FortranContainer.print_error", desc="print_error formats attributes of the entity (obj, name, filename), never the entity itself or its identifier / URL")
+    if bad:
+        r.witness = {"sites": bad}
+        r.detail = f"line {bad[0][0]}: `{bad[0][1]}` asks the name selector for an output name while the file may still be rejected: a valid file read later gets `name~2`"
+        if replay:
+            r.replay = replay()
+    return [r]
